@@ -95,6 +95,11 @@ type pendingSet struct {
 }
 
 func newSchedExec(maxTTL int64, iv time.Duration, res *lib.Result, cs *Case) *schedExec {
+	return newSchedExecOpt(maxTTL, iv, res, cs, true)
+}
+
+// waitStart=false: return right after NewCache (the periodic goroutine may not have run yet).
+func newSchedExecOpt(maxTTL int64, iv time.Duration, res *lib.Result, cs *Case, waitStart bool) *schedExec {
 	x := &schedExec{res: res, cs: cs, reg: map[int64]int{}, parkCh: make(chan *parkEvent, 16),
 		parked: map[int]*parkEvent{}, done: map[int]chan string{}, snapGen: map[int]map[string]int{},
 		stops: map[int]chan struct{}{}, role: map[int64]roleT{}, gets: map[int]*pendingGet{}, sets: map[int]*pendingSet{}}
@@ -106,7 +111,7 @@ func newSchedExec(maxTTL int64, iv time.Duration, res *lib.Result, cs *Case) *sc
 	x.clk.NowHook.Store(&before)
 	x.clk.AfterNowHook.Store(&after)
 	x.c = ttlcache.VerifNewCache[int](ttlcache.CacheOptions{MaxTTL: maxTTL, CleanupInterval: iv}, x.clk)
-	if !waitTicker(x.clk) {
+	if waitStart && !waitTicker(x.clk) {
 		res.Note("sched: the cleaner goroutine never created its ticker")
 	}
 	return x
@@ -346,6 +351,11 @@ func (x *schedExec) exec(line string) string {
 			}
 			x.res.Hit("op:bgfinish")
 			return "ok"
+		case "bgstart": // the periodic goroutine gets scheduled for the first time (creates its ticker)
+			if !waitTicker(x.clk) {
+				return "timeout"
+			}
+			return "ok"
 		case "gbegin": // a Get parked between its map read and its clock read
 			id64, ok := kv.i64("id")
 			id := int(id64)
@@ -535,6 +545,9 @@ func (x *schedExec) exec(line string) string {
 			x.c.Stop()
 			x.stopped = true
 			x.stopCalled = true
+			if x.clk.TickerMade.Load() == 0 {
+				x.res.Violate("stop-returned-before-cleaner-exit", "Stop returned although the cleaner goroutine had not even started (no ticker created yet)", x.cs)
+			}
 			if x.clk.TickerStops.Load() != 1 {
 				x.res.Violate("stop-returned-before-cleaner-exit", "Stop returned but the cleaner's deferred ticker.Stop had not run", x.cs)
 			}
@@ -668,13 +681,13 @@ func runSchedLines(cs *Case, res *lib.Result) []string {
 	var outs []string
 	for _, l := range cs.Lines {
 		op, kv := parseLine(l)
-		if op == "cnew" {
+		if op == "cnew" || op == "cnewraw" {
 			if x != nil {
 				x.close()
 			}
 			mx, _ := kv.i64("max")
 			iv, _ := kv.i64("iv")
-			x = newSchedExec(mx, time.Duration(iv), res, cs)
+			x = newSchedExecOpt(mx, time.Duration(iv), res, cs, op == "cnew")
 			outs = append(outs, "ok")
 			continue
 		}
@@ -1496,5 +1509,134 @@ func runPairs(f lib.Flags, res *lib.Result) {
 				res.Violate("pair-scenario-"+out, "pair scenario "+a+"/"+b+" ended with "+out, cs)
 			}
 		}
+	}
+}
+
+// ---------------------------------------------------------------------------------------------
+// stop-immediately: NewCache; Stop back to back — the cleaner goroutine may not have been scheduled
+// yet when Stop runs. Stop must still wait for it: when Stop returns the goroutine has started AND
+// exited (its ticker was created and stopped), and afterwards nothing may start, tick or clean.
+
+func stopImmediatelyRound(res *lib.Result, cs *Case, procs int) string {
+	if procs > 0 {
+		defer runtime.GOMAXPROCS(runtime.GOMAXPROCS(procs))
+	}
+	base := goroutineCount()
+	clk := ttlcache.NewVerifClock(t0)
+	var hookFired atomic.Int64
+	var c *ttlcache.Cache[int]
+	verifhook.Set(func(name string, args ...any) {
+		if len(args) >= 1 {
+			if cc, ok := args[0].(*ttlcache.Cache[int]); ok && cc == c {
+				hookFired.Add(1)
+			}
+		}
+	})
+	defer verifhook.Set(nil)
+	c = ttlcache.VerifNewCache[int](ttlcache.CacheOptions{CleanupInterval: time.Second}, clk)
+	ret := make(chan struct{})
+	go func() { c.Stop(); close(ret) }()
+	if procs == 0 {
+		// default scheduling: also try the inline form (same goroutine as NewCache)
+	}
+	select {
+	case <-ret:
+	case <-time.After(5 * time.Second):
+		return "stop-hangs"
+	}
+	made, stops := clk.TickerMade.Load(), clk.TickerStops.Load()
+	if made != 1 || stops != 1 {
+		res.Violate("stop-returned-before-cleaner-exit",
+			fmt.Sprintf("NewCache(); Stop(): Stop returned with tickers created=%d stopped=%d (the cleaner goroutine must have started and exited: 1/1)", made, stops), cs)
+	}
+	// entries that a cleaner would remove
+	c.Set("x", 1, 1)
+	c.Set("y", 2, 1)
+	for i := 0; i < 6; i++ {
+		clk.Advance(1500 * time.Millisecond)
+		runtime.Gosched()
+		time.Sleep(100 * time.Microsecond)
+	}
+	if m2 := clk.TickerMade.Load(); m2 != made {
+		res.Violate("cleaner-started-after-stop", fmt.Sprintf("a ticker was created AFTER Stop had returned (created before/after: %d/%d): the cleaner goroutine started after Stop", made, m2), cs)
+	}
+	if n := clk.TicksSent.Load(); n > 0 {
+		res.Violate("cleaner-started-after-stop", fmt.Sprintf("%d ticks were delivered to a cleaner after Stop had returned", n), cs)
+	}
+	if n := hookFired.Load(); n > 0 {
+		res.Violate("stop-returned-before-cleaner-exit", fmt.Sprintf("Cleanup ran %d time(s) after Stop had returned", n), cs)
+	}
+	if n := c.VerifLen(); n != 2 {
+		res.Violate("stop-returned-before-cleaner-exit", fmt.Sprintf("expired entries were cleaned after Stop had returned (stored: %d of 2)", n), cs)
+	}
+	gone := false
+	for t := 0; t < 2000; t++ {
+		if goroutineCount() <= base {
+			gone = true
+			break
+		}
+		time.Sleep(100 * time.Microsecond)
+	}
+	if !gone {
+		res.Violate("stop-returned-before-cleaner-exit", fmt.Sprintf("goroutines before NewCache %d, 200ms after Stop %d", base, goroutineCount()), cs)
+	}
+	return "ok"
+}
+
+// same, but Stop is called inline right after NewCache on the same goroutine
+func stopInlineRound(res *lib.Result, cs *Case, procs int) string {
+	if procs > 0 {
+		defer runtime.GOMAXPROCS(runtime.GOMAXPROCS(procs))
+	}
+	clk := ttlcache.NewVerifClock(t0)
+	c := ttlcache.VerifNewCache[int](ttlcache.CacheOptions{CleanupInterval: time.Second}, clk)
+	c.Stop()
+	made, stops := clk.TickerMade.Load(), clk.TickerStops.Load()
+	if made != 1 || stops != 1 {
+		res.Violate("stop-returned-before-cleaner-exit",
+			fmt.Sprintf("NewCache(); Stop() inline: Stop returned with tickers created=%d stopped=%d", made, stops), cs)
+	}
+	for i := 0; i < 4; i++ {
+		clk.Advance(1500 * time.Millisecond)
+		runtime.Gosched()
+	}
+	time.Sleep(200 * time.Microsecond)
+	if m2 := clk.TickerMade.Load(); m2 != made || clk.TicksSent.Load() > 0 {
+		res.Violate("cleaner-started-after-stop", fmt.Sprintf("after an inline Stop a ticker was created or ticked (created %d->%d, ticks %d)", made, m2, clk.TicksSent.Load()), cs)
+	}
+	return "ok"
+}
+
+func runStopImmediately(f lib.Flags, res *lib.Result, drv *lib.Drv) {
+	// the schedule as a script, diffed against the LTS (the goroutine is `spawned` when Stop is called)
+	for _, n := range []int{1, 3} {
+		cs := &Case{Mode: "sched"}
+		cs.Lines = []string{fmt.Sprintf("cnewraw max=0 t0=%d iv=%d", t0.UnixNano(), nsPerSecond), "stop",
+			"set k=a v=1 ttl=1", fmt.Sprintf("adv d=%d", int64(n)*3*nsPerSecond), fmt.Sprintf("adv d=%d", 2*nsPerSecond), "get k=a", "dump"}
+		outs := runSchedLines(cs, res)
+		diff(drv, res, schedCorr, cs, outs)
+		res.Count(strings.Join(cs.Lines, "|"), true)
+		res.Traces++
+	}
+	rounds := 300
+	if f.Tier == "thorough" || f.Search {
+		rounds = 3000
+	}
+	for i := 0; i < rounds; i++ {
+		procs := 0
+		if i%2 == 0 {
+			procs = 1
+		}
+		cs := &Case{Mode: "stopnow", Lines: []string{fmt.Sprintf("NewCache; Stop back to back, GOMAXPROCS=%d (0 = default), round %d", procs, i)}}
+		fn := stopImmediatelyRound
+		if i%4 >= 2 {
+			fn = stopInlineRound
+		}
+		out := guarded(15*time.Second, func() string { return fn(res, cs, procs) })
+		if out != "ok" {
+			res.Violate("stop-"+out, "stop-immediately round ended with "+out, cs)
+		}
+		res.Count(fmt.Sprintf("stopnow/%d", i), true)
+		res.Hit(fmt.Sprintf("family:stop-immediately GOMAXPROCS=%d", procs))
 	}
 }
